@@ -7,6 +7,9 @@ for m in sorted(glob.glob(os.path.join(VERIF, 'seeded', '*', 'meta.json'))):
     d = json.load(open(m))
     ev = d.get('evaluation', {})
     name = os.path.basename(os.path.dirname(m))
+    if d.get('obsolete'):
+        rows.append((name, d.get('property', ev.get('property', '')), 'was', (d.get('what_it_breaks') or '')[:110].replace('|', '/').replace('\n', ' '), '', 'obsolete: ' + d['obsolete'][:160].replace('|', '/')))
+        continue
     for prop, c in ev.get('checks', {}).items():
         viol = [l.split('obligation=')[1] for l in c['lines'] if l.startswith('VIOLATION')]
         und = [l for l in c['lines'] if l.startswith('UNDECIDED')]
